@@ -38,6 +38,12 @@ func propConfigs() map[string]*PropConfig {
 		Explain: "pattern C: the real BindClass.MakeDescriptor/Index/Class, Comp.NewBind, CompBinds.NewBind and Interp.prepareEnv are executed from an arbitrary state satisfying the slot invariant; post-conditions: slot allocation, frozen capacity honoured, existing slots preserved, no reallocation after an address escaped"})
 	add(&PropConfig{ID: "C19", Prefix: "VH_C19_", Sets: []HarnessSet{hfiles("fast", fastLib, "fast/c19.go"), hfiles("fast/debug", "debug/c19_cmd.go")},
 		Explain: "patterns A/C: the real singleStep, Interp.debug, Run.applyDebugOp (package fast) and Debugger.cmdStep/cmdNext/cmdFinish/cmdContinue, Cmds.Lookup (package fast/debug) are executed with symbolic call depths; the debugger is a counting stub; assertions state the stop rule of each command"})
+	add(&PropConfig{ID: "C13", Prefix: "VH_C13_", Sets: []HarnessSet{hfiles("fast", fastLib, "fast/c19.go", "fast/c13.go")},
+		Explain: "the real Code.Exec / exec / execWithFlags / reExecWithFlags executor loops, spinInterrupt, Run.interrupt, Run.applyAsyncSignal, restore and base.Signals.IsEmpty are executed symbolically on compiled-code lists made of harness statements; the statement call at which the asynchronous interrupt arrives is enumerated over every position of the unrolled loops"})
+	add(&PropConfig{ID: "C07", Prefix: "VH_C07_", Sets: []HarnessSet{hfiles("fast", fastLib, "fast/c19.go", "fast/c13.go", "fast/c07.go")},
+		Explain: "the real callRecover, pushDefer, popDefer, maybeRepanic and the defer machinery of reExecWithFlags (rundefer) are executed symbolically on function bodies made of harness statements; which calls panic / recover is symbolic"})
+	add(&PropConfig{ID: "C12", Prefix: "VH_C12_", Sets: []HarnessSet{hfiles("fast", fastLib, "fast/c19.go", "fast/c13.go", "fast/c07.go")},
+		Explain: "the real exec / reExecWithFlags / restore / pushDefer / popDefer are executed on programs aborted by a panic at every statement position (and inside a deferred call); afterwards the bookkeeping is compared with the top-level values and probe evaluations (defer + panic + recover) are run on the same Run"})
 	xrp := "(*github.com/cosmos72/gomacro/xreflect.xtype)."
 	add(&PropConfig{ID: "C34", Prefix: "VH_C34_", Sets: []HarnessSet{hfiles("xreflect", "xreflect/lib_xreflect.go", "xreflect/c34_gen.go")},
 		Redirect: map[string]string{xrp + "NumMethod": "vhModelNumMethod", xrp + "Method": "vhModelMethod", xrp + "GetMethods": "vhModelGetMethods"},
